@@ -495,7 +495,7 @@ def flat (v : Variant) : Nat → Heap → St → Src → List It → FlatRes
         | .error er => ⟨h1, st1, src1, stack1, .err er⟩
         | .ok (.atom .none) => flat v fuel h1 st1 src1 stack1
         | .ok (.atom (.str s)) => ⟨h1, st1, src1, stack1, .ev (.text s false)⟩
-        | .ok (.atom a) => ⟨h1, st1, src1, stack1, .ev (.text a.text true)⟩
+        | .ok (.atom a) => ⟨h1, st1, src1, stack1, .ev (.text a.text false)⟩
         | .ok (.list xs) => flat v fuel h1 st1 src1 (.ensure xs :: stack1)
         | .ok (.opaque _) => ⟨h1, st1, src1, stack1, .err .unmodelled⟩
         | .ok (.macro _) => ⟨h1, st1, src1, stack1, .err .unmodelled⟩
